@@ -818,10 +818,22 @@ class Executor:
             return args
 
         # 1. obligation stubs, 2. builtin models
+        # method-level generic arguments (`ok_or::<E>`) do not select a different model
+        func_ng = re.sub(r"::<[^<>]*(?:<[^<>]*(?:<[^<>]*>[^<>]*)*>[^<>]*)*>$", "", func_s) if func_s.endswith(">") and not func_s.startswith("<") or re.search(r"[a-z_0-9]::<.*>$", func_s) else func_s
+        if func_ng != func_s:
+            try:
+                cut = _strip_last_generics(func_s)
+                func_ng = cut
+            except Exception:
+                func_ng = func_s
         for rx, fnc in self.stubs + self.models:
-            m = rx.search(func_s) if hasattr(rx, "search") else re.search(rx, func_s)
+            m = rx.search(func_s)
+            path_used = func_s
+            if not m and func_ng != func_s:
+                m = rx.search(func_ng)
+                path_used = func_ng
             if m:
-                res = fnc(self, st, fr, func_s, get_args(), m)
+                res = fnc(self, st, fr, path_used, get_args(), m)
                 if res is NotImplemented:
                     continue
                 self.finish_call(st, fr, t, res)
@@ -870,6 +882,18 @@ class Executor:
                 fn, b = r
                 return fn, b
             return None
+        # items nested in an impl method: <Self as Trait>::method::inner
+        m = re.match(r"^<(.*)>::([A-Za-z_0-9]+)((?:::[A-Za-z_0-9]+)+)$", func_s)
+        if m and M.match_close(func_s, 0) == m.start(2) - 3:
+            self_ty, trait = _split_as(m.group(1))
+            r = self.resolve_method(self_ty, trait, m.group(2))
+            if r:
+                outer, b = r
+                for key, d in self.dumps.items():
+                    fs = d.functions.get(outer.name + m.group(3), [])
+                    if len(fs) == 1:
+                        return fs[0], b
+            return None
         bare = _strip_generics(func_s)
         # Type::method (inherent or trait-qualified by type): try impl index with Self = second-to-last segment
         segs = _split_path(func_s)
@@ -904,6 +928,16 @@ class Executor:
                     raise Unsupported(f"cannot bind generic arguments of {func_s}")
             return fn, tymap
         return None
+
+
+def _strip_last_generics(p):
+    """remove a trailing `::<...>` (generic arguments of the final path segment)"""
+    if not p.endswith(">"):
+        return p
+    op = M.match_open_back(p, len(p) - 1)
+    if op >= 2 and p[op - 2:op] == "::":
+        return p[:op - 2]
+    return p
 
 
 def _strip_generics(p):
